@@ -149,6 +149,11 @@ def daysInMonth (y m : Nat) : Nat :=
   if m = 2 then (if isLeap y then 29 else 28)
   else if m = 4 ∨ m = 6 ∨ m = 9 ∨ m = 11 then 30 else 31
 
+/-- the day after a civil date, by the Gregorian rules (specification side of `civil_succ`) -/
+def nextDay (c : Nat × Nat × Nat) : Nat × Nat × Nat :=
+  if c.2.2 < daysInMonth c.1 c.2.1 then (c.1, c.2.1, c.2.2 + 1)
+  else if c.2.1 < 12 then (c.1, c.2.1 + 1, 1) else (c.1 + 1, 1, 1)
+
 /-- `'/'` -/
 def slash : UInt8 := 47
 
